@@ -38,6 +38,7 @@ FLOORS = {"calls": 5000, "cadence_checks": 3000, "count_sum_checks": 1000, "coun
           "resets": 100, "post_final_advances": 500, "exact_boundary_advances": 200}
 READY = True
 U = 16
+MAX_CALLS = 300  # per case; legitimate cases make at most one call per advance (< 80)
 
 
 class Boom(Exception):
@@ -121,6 +122,17 @@ class Monitor:
         self.reset_used = False
         self.lc = task.LoopingCall.withCount(self.f) if case["withCount"] else task.LoopingCall(self.f)
         self.lc.clock = self.clock
+        self.n_timers = 0
+        real_callLater = self.clock.callLater
+
+        def callLater(*a, **kw):  # bounds a broken loop that keeps re-scheduling itself without the clock moving
+            self.n_timers += 1
+            if self.n_timers > 2 * MAX_CALLS:
+                self.fail("runaway-calls", "more than %d timers scheduled in one case" % (2 * MAX_CALLS))
+                raise Boom("abort")
+            return real_callLater(*a, **kw)
+
+        self.clock.callLater = callLater
 
     def stat(self, k, n=1):
         self.stats[k] = self.stats.get(k, 0) + n
@@ -148,6 +160,10 @@ class Monitor:
         beh = self.case["behaviours"][idx] if idx < len(self.case["behaviours"]) else ["ret"]
         if not self.bad:
             self.check_call(t, idx, count)
+        if idx > MAX_CALLS and not self.bad:
+            self.fail("runaway-calls", "more than %d calls in one case (loop re-fires without the clock moving?)" % MAX_CALLS)
+        if self.bad:
+            raise Boom("abort")  # a failing function ends the loop: bounds a broken implementation that re-fires forever
         self.expected_B = None
         if "stop" in beh[1:] and self.running and not self.bad:
             self.stat("stop_inside_call")
